@@ -4,6 +4,7 @@
 -/
 import PercevalModel.Lemmas.C07
 import PercevalModel.Lemmas.C02Embed
+import PercevalModel.Model.C07Sel
 
 open Matrix
 
@@ -51,5 +52,49 @@ theorem spectFact_congr {N a b : ℕ} (s t : List ℕ)
   unfold spectFact
   refine Finset.prod_congr rfl fun j hj => ?_
   rw [h j (Finset.mem_filter.1 hj).2]
+
+theorem spectAgree_iff {N a b : ℕ} (s t : List ℕ) (hs : s.length = N) :
+    spectAgree a b s t = true ↔
+      ∀ j : Fin N, twoG N a b j = none → t.getD j.val 0 = s.getD j.val 0 := by
+  subst hs
+  unfold spectAgree
+  simp only [List.all_eq_true, List.mem_range, Bool.or_eq_true, beq_iff_eq, twoG_eq_none_iff]
+  constructor
+  · intro h j hj
+    rcases h j.val j.isLt with (h1 | h1) | h1
+    · exact absurd h1 hj.1
+    · exact absurd h1 hj.2
+    · exact h1
+  · intro h j hj
+    by_cases h1 : j = a
+    · exact Or.inl (Or.inl h1)
+    · by_cases h2 : j = b
+      · exact Or.inl (Or.inr h2)
+      · exact Or.inr (h ⟨j, hj⟩ ⟨h1, h2⟩)
+
+/-- **spectator factorisation for a channel block** (probabilities): the normalisations `∏ sᵢ!`, `∏ tⱼ!` split in
+the same way, so the transition probability of the block inside an `N`-mode circuit is the transition probability
+of the bare `2 × 2` block between the two-mode states, and zero when any other mode changes -/
+theorem prob_twoMode {N a b : ℕ} (ha : a < N) (hb : b < N) (hab : a ≠ b)
+    (B : Matrix (Fin 2) (Fin 2) GQ) (s t : List ℕ) (hs : s.length = N) (ht : t.length = N) :
+    Fock.prob (twoMode N a b B) s t =
+      if spectAgree a b s t then
+        Fock.prob B [s.getD a 0, s.getD b 0] [t.getD a 0, t.getD b 0]
+      else 0 := by
+  unfold Fock.prob
+  rw [pamp_twoMode ha hb hab B s t hs ht]
+  by_cases h : spectAgree a b s t = true
+  · have h' := (spectAgree_iff s t hs).1 h
+    rw [if_pos h, if_pos h', prodFact_twoMode ha hb hab s hs, prodFact_twoMode ha hb hab t ht,
+      spectFact_congr s t h', normSq_mul, normSq_natCast]
+    have hF : (spectFact N a b s : ℚ) ≠ 0 := Nat.cast_ne_zero.2 (spectFact_ne_zero N a b s)
+    push_cast
+    rw [show ((spectFact N a b s : ℚ) * (Fock.prodFact [s.getD a 0, s.getD b 0] : ℚ)) *
+        ((spectFact N a b s : ℚ) * (Fock.prodFact [t.getD a 0, t.getD b 0] : ℚ)) =
+        ((spectFact N a b s : ℚ) * (spectFact N a b s : ℚ)) *
+          ((Fock.prodFact [s.getD a 0, s.getD b 0] : ℚ) * (Fock.prodFact [t.getD a 0, t.getD b 0] : ℚ)) by ring,
+      mul_div_mul_left _ _ (mul_ne_zero hF hF)]
+  · rw [if_neg h, if_neg (mt (spectAgree_iff s t hs).2 h)]
+    simp [GQ.normSq]
 
 end PM.C07
